@@ -50,6 +50,7 @@ type Scenario struct {
 	Follows    int  `json:"follows,omitempty"`
 	InsAt      int  `json:"ins_at,omitempty"`
 	InsKind    int  `json:"ins_kind,omitempty"`
+	MarkerPos  int  `json:"marker_pos,omitempty"` // where the peer's strict marker stands: 0 last, 1 first, 2 before ext-info, 3 between ext-info and the algorithms
 	Gex        Gex  `json:"gex"`
 	FragDen    int  `json:"frag_den"`
 	Switch     int  `json:"switch_den"`
@@ -203,6 +204,7 @@ func gen(r *rand.Rand, prop, tier string, index int) any {
 			// the scripted peer offers strict KEX as well; most of these runs
 			// carry one insertion before its NEWKEYS
 			s.PeerStrict = true
+			s.MarkerPos = r.IntN(4)
 			if r.IntN(4) > 0 {
 				s.InsAt = r.IntN(4)
 				s.InsKind = []int{2, 4, 3, 192, 7}[r.IntN(5)]
@@ -275,6 +277,7 @@ func enumerate(prop, tier string, i int) any {
 		k /= 3
 		s.InsAt = k % 4
 		s.InsKind = kinds[k/4]
+		s.MarkerPos = (k + k/4) % 4
 		if s.Follows == 2 && s.Legacy == "server" {
 			s.Follows = 1
 		}
